@@ -10,7 +10,7 @@ from reactivestreams.subscriber import DefaultSubscriber
 from rsocket.error_codes import ErrorCode
 from rsocket.exceptions import RSocketProtocolError, RSocketTransportError, RSocketError
 from rsocket.extensions.mimetypes import WellKnownMimeTypes, ensure_encoding_name
-from rsocket.frame import (KeepAliveFrame,
+from rsocket.frame import (KeepAliveFrame, PayloadFrame,
                            MetadataPushFrame, RequestFireAndForgetFrame,
                            RequestResponseFrame, RequestStreamFrame, Frame,
                            exception_to_error_frame,
@@ -359,6 +359,10 @@ class RSocketBase(RSocket, RSocketInternal):
             return
 
         if is_fragmentable_frame(frame):
+            if self._is_fragment_of_finished_stream(frame):
+                logger().warning('%s: Dropping fragment from unknown stream %d', self._log_identifier(), frame.stream_id)
+                return
+
             complete_frame = self._frame_fragment_cache.append(cast(FragmentableFrame, frame))
             if complete_frame is None:
                 return
@@ -373,6 +377,13 @@ class RSocketBase(RSocket, RSocketInternal):
         else:
             logger().warning('%s: Dropping frame from unknown stream %d', self._log_identifier(),
                              complete_frame.stream_id)
+
+    def _is_fragment_of_finished_stream(self, frame: Frame) -> bool:
+        """A payload fragment still in flight for a stream which was already finished must not be cached."""
+        return (isinstance(frame, PayloadFrame)
+                and frame.flags_follows
+                and not self._stream_control.is_stream_registered(frame.stream_id)
+                and not self._frame_fragment_cache.has_partial_frame(frame.stream_id))
 
     async def _handle_frame_by_type(self, frame: Frame, async_frame_handler_by_type):
         frame_handler = async_frame_handler_by_type.get(type(frame), async_noop)
